@@ -8,12 +8,14 @@ from vf.runner import CaseTimeout, time_limit
 from vf.semirings import Poly
 from vf.spaces import strings_upto
 
+from genlm.grammar.cfg import CFG
 from genlm.grammar.parse import earley, earley_rescaled
 from genlm.grammar.parse.cky import IncrementalCKY
 from genlm.grammar.semiring import Boolean, Float, MaxTimes
 
 ID = "C02"
 LEVEL = "model_checking"
+CASE_HARD_TIMEOUT = 900  # the scale case builds two parsers over 34k rules (~10 s each)
 TIER = "quick"
 FLOATW = [0.5, 1 / 3, 0.2, 1 / 7, 0.25, 0.3]
 SIGNEDW = [1.0, -1.0, 0.5, 2.0, -0.5, 4.0]  # dyadic: float arithmetic on them is exact
@@ -51,6 +53,8 @@ def plan(tier, seed):
     cases += extra
     bi, si, ti = gram.grammar_cases(2 if tier != "thorough" else 3, terms=("a", "b", "c"), with_sharp=False)
     cases += [dict(c, mode="free", ints=True) for c in bi]  # integer terminals {0,1,2}
+    # one SCALE input (size is the one dimension the small-scope bound cannot reach): 185 tokens, all 185^2 two-token strings
+    cases.insert(0, {"name": "scale", "mode": "scale", "K": 150, "rules": []})
     nstates += si
     ntrans += ti
     for c in base:
@@ -71,7 +75,7 @@ def plan(tier, seed):
             f"depth {p['depth']}, canonical up to a<->b) + {len([1 for c in base if c['name'].startswith('sharp')])} sharp grammars; "
             f"per state every string of length <= {p['maxlen']}; modes: free = indeterminate weights (Poly_D, D={p['D']}) for cfg(x)/Earley/CKY/materialize "
             "vs the derivation enumerator; num = Boolean, MaxTimes(Fraction), rescaled Earley(float) vs naive fixed point; "
-            f"sched = E2 all agenda tie-break resolutions with <= {p['sched_bound']} deviations; perm = all rule orders x 6 renamings (one of them gives every OCCURRENCE of a nonterminal a new equal-but-not-identical object). "
+            f"scale = one grammar with 150 tokens, 22,500 nonterminals and 45,000 rules for all strings t0 ti tj (rule-suffix tables > 2^16 entries), 14 strings, both Earley parsers; sched = E2 all agenda tie-break resolutions with <= {p['sched_bound']} deviations; perm = all rule orders x 6 renamings (one of them gives every OCCURRENCE of a nonterminal a new equal-but-not-identical object). "
             "non-trivial = the grammar has a string of non-zero weight within the bound and a non-zero value was compared"
         ),
         "bounds": p,
@@ -378,7 +382,44 @@ def run_perm(case):
     return {"evals": evals, "nontrivial": int(any(w != Poly.zero for w in table.values())), "fails": fails, "counters": {"executions": evals, "configurations": evals}}
 
 
+def run_scale(case):
+    """S -> t0 A_ij [1/(i+j+2)], A_ij -> ti tj (each string t0 ti tj has exactly one derivation; the distinguishing
+    part of a body comes LATE, so the codes of the rule-body suffixes that items advance to exceed 2^15 and 2^16)."""
+    from fractions import Fraction
+
+    K = case["K"]
+    toks = [f"t{i}" for i in range(K)]
+    g = CFG(Float, "S", set(toks))
+    for i in range(K):
+        for j in range(K):
+            g.add(1.0 / (i + j + 2), "S", toks[0], ("A", i, j))
+            g.add(1.0, ("A", i, j), toks[i], toks[j])
+    fails = []
+    evals = 0
+    probes = [(0, 0), (0, 1), (1, 0), (K - 1, K - 1), (K - 1, 0), (0, K - 1), (K // 2, K // 2), (K - 2, K - 1), (97, 131), (149, 93)]
+    for name, mk in (("earley", lambda: earley.Earley(g)), ("rescaled", lambda: earley_rescaled.Earley(g))):
+        inp0 = {"grammar": f"S -> t0 A_ij [1/(i+j+2)], A_ij -> ti tj for all i, j < {K}", "parser": name}
+        ps = _call(mk)
+        if isinstance(ps, str):
+            fails.append(_fail(f"{name}: construct (large grammar)", inp0, ps, "parser"))
+            continue
+        for i, j in probes:
+            have = _call(lambda: ps((toks[0], toks[i], toks[j])))
+            evals += 1
+            want = 1.0 / (i + j + 2)
+            if isinstance(have, str) or not gram.fclose(have, want):
+                fails.append(_fail(f"{name}(x)==derivation-sum (large grammar)", dict(inp0, x=[toks[0], toks[i], toks[j]]), have, want))
+        for x in ((toks[0],), (toks[0], toks[1]), (toks[1], toks[1], toks[2]), ()):
+            have = _call(lambda: ps(x))
+            evals += 1
+            if isinstance(have, str) or have != 0:
+                fails.append(_fail(f"{name}(x)==0 outside the language (large grammar)", dict(inp0, x=list(x)), have, 0))
+    return {"evals": evals, "nontrivial": 1, "fails": fails, "counters": {"executions": evals, "scale_rules": K * K}}
+
+
 def run_case(case):
+    if case["mode"] == "scale":
+        return run_scale(case)
     if case["mode"] == "sched":
         es.install_heap()
         try:
